@@ -47,7 +47,8 @@ CHILD_KINDS = {
 HEADER_POSTPONED = "from __future__ import annotations\n"
 HEADER = '''
 import enum
-from dataclasses import dataclass, field
+from dataclasses import KW_ONLY, dataclass, field
+from typing import ClassVar
 from pyoak.node import ASTNode
 
 
@@ -89,6 +90,12 @@ def render(h: dict[str, Any]) -> str:
         if not c["fields"]:
             out.append("    pass")
         for f in c["fields"]:
+            if f["kind"] == "classvar":  # not a dataclass field at all
+                out.append(f"    {f['name']}: {f['ann']} = {f['default']}")
+                continue
+            if f["kind"] == "kwmark":  # the KW_ONLY sentinel: the fields after it are keyword-only
+                out.append("    _: KW_ONLY")
+                continue
             ann = PROP_KINDS[f["kind"]][0] if f["kind"] in PROP_KINDS else CHILD_KINDS[f["kind"]]
             if f.get("quoted") and not h["postponed"]:
                 ann = '"' + ann + '"'  # a string annotation among real-type annotations
@@ -147,6 +154,8 @@ def linear(h: dict[str, Any], cname: str) -> list[dict[str, Any]]:
     out: list[dict[str, Any]] = []
 
     def put(f: dict[str, Any]) -> None:
+        if f["kind"] in ("classvar", "kwmark"):
+            return
         for i, g in enumerate(out):
             if g["name"] == f["name"]:
                 out[i] = f
@@ -714,6 +723,12 @@ class Gen:
                 if not kw_only and f["default"] is None:
                     f["kw_only"] = True
                 fields.append(f)
+            if r.random() < 0.2:
+                self.nf += 1
+                ann, dflt = r.choice([("ClassVar[int]", "3"), ("ClassVar[GLeaf | None]", "None"), ("ClassVar[str]", '"cv"'), ("ClassVar[tuple[GLeaf, ...]]", "()")])
+                fields.insert(r.randint(0, len(fields)), {"name": f"cv{self.nf}", "kind": "classvar", "ann": ann, "default": dflt, "init": False, "compare": False})
+            if r.random() < 0.15 and not slots:
+                fields.insert(r.randint(0, len(fields)), {"name": "_", "kind": "kwmark", "init": False, "compare": False})
             classes.append({"name": f"G{i}", "base": base, "slots": slots, "kw_only": kw_only, "fields": fields})
         # CPython limitation (not pyoak): a slotted dataclass with an init=False default field cannot be the base of
         # a non-slotted dataclass (the default lives in no class attribute) -- only leaf classes are slotted
